@@ -245,6 +245,8 @@ pub struct Sys {
     /// drive the operations the way `antctl` does: every start / stop / remove / upgrade is preceded by the partial
     /// registry refresh of `cmd/node.rs` (refresh_node_registry(.., full_refresh = false, is_local_network = false))
     cmd_layer: bool,
+    /// command layer only: the injected failures may also hit the calls of the refresh (its PID look-ups)
+    refresh_faults: bool,
 }
 
 static SEQ: AtomicU64 = AtomicU64::new(0);
@@ -266,7 +268,7 @@ impl Sys {
         std::fs::write(dir.join("antnode"), b"#!/bin/sh\n").unwrap();
         std::fs::write(dir.join("antnode-new"), b"#!/bin/sh\n# new\n").unwrap();
         let reg = NodeRegistry::load(&dir.join("registry.json")).expect("empty registry");
-        Sys { os: SimOs::new(), reg, dir, rt: tokio::runtime::Builder::new_current_thread().enable_time().build().unwrap(), removed_once: vec![], left_behind: vec![], died_unseen: vec![], faults_used: 0, max_faults, max_services: 2, pair_faults, cmd_layer }
+        Sys { os: SimOs::new(), reg, dir, rt: tokio::runtime::Builder::new_current_thread().enable_time().build().unwrap(), removed_once: vec![], left_behind: vec![], died_unseen: vec![], faults_used: 0, max_faults, max_services: 2, pair_faults, cmd_layer, refresh_faults: false }
     }
 
     fn add_options(&self, count: u16, ports: Ports) -> AddNodeServiceOptions {
@@ -462,7 +464,7 @@ impl Sys {
     fn step_inner(&mut self, a: &Act, fails: &mut Vec<Fail>) {
         if self.cmd_layer && matches!(a.op, Op::Start { .. } | Op::Stop { .. } | Op::Remove { .. } | Op::Upgrade { .. }) {
             // what cmd/node.rs does first in start / stop / remove / upgrade (no failures are injected into the refresh itself)
-            self.os.begin_op(&[]);
+            self.os.begin_op(if self.refresh_faults { &a.faults } else { &[] });
             let os = self.os.clone();
             let reg = &mut self.reg;
             let r = self.rt.block_on(async { ant_node_manager::refresh_node_registry(reg, &os, false, false, false).await });
@@ -480,7 +482,9 @@ impl Sys {
                 }
             }
         }
-        self.os.begin_op(&a.faults);
+        if !(self.cmd_layer && self.refresh_faults && matches!(a.op, Op::Start { .. } | Op::Stop { .. } | Op::Remove { .. } | Op::Upgrade { .. })) {
+            self.os.begin_op(&a.faults);
+        }
         let before = registry_json(&self.reg);
         let statuses_before: Vec<ServiceStatus> = self.reg.nodes.iter().map(|n| n.status.clone()).collect();
         let after_name = format!("{:?}", a.op);
@@ -611,7 +615,8 @@ pub fn main(tier: Option<&str>) {
          process dies} on <=2 services through the real add_node / ServiceManager / NodeRegistry against a simulated OS; depth 5(6); fault \
          placements: none, and at most 1(2) injected failure(s) per history at call index 0..7 of an operation with an I/O error (thorough also pairs within one \
          operation); process-not-found and definition-removed-manually / does-not-exist answers arise from environment steps (process dies, \
-         definition deleted by the user), never as injected lies. State key = registry (volatile fields dropped) + OS processes and definitions.",
+         definition deleted by the user), never as injected lies. State key = registry (volatile fields dropped) + OS processes and definitions. The search is run twice: on the ServiceManager API directly, and \
+         through the command layer (every start / stop / remove / upgrade preceded by the partial registry refresh of cmd/node.rs; quick: depth 4), and a third time with the failure allowed to hit the refresh's own look-ups (depth 4(5), one failure or one consecutive pair per history).",
     );
     run.assume("SimOs implements the public ServiceControl / RpcActions traits: definitions, processes keyed by binary path, fresh pids, free ports");
     run.assume("a process dying on its own is reality moving: the Running-means-live clause is not judged for a service whose process died on its own until the manager next changes that service's recorded status or PID");
@@ -630,5 +635,19 @@ pub fn main(tier: Option<&str>) {
         BfsOpts { max_depth: run.pick(4, 6), wall_cap: Some(Duration::from_secs(run.pick(45, 1500))), state_cap: None, label: format!("command-layer/faults<={max_faults}") },
         || Sys::new(max_faults, pairs, true),
     );
+    // and a third time with the injected failure allowed to hit the refresh's own PID look-ups as well (one failure, or two
+    // consecutive calls of one operation, per history in both tiers: a second, independent failure on top of a process
+    // left behind by a failed start would only restate the recorded finding of the directly driven API)
+    {
+        bfs_replay(
+            &run,
+            BfsOpts { max_depth: run.pick(4, 5), wall_cap: Some(Duration::from_secs(run.pick(45, 1500))), state_cap: None, label: "command-layer+refresh-faults/faults<=1".to_string() },
+            || {
+                let mut s = Sys::new(1, false, true);
+                s.refresh_faults = true;
+                s
+            },
+        );
+    }
     run.finish();
 }
